@@ -126,6 +126,9 @@ pub fn run_c13(ctx: &Ctx, index: u64, cov: &mut Cov) -> Option<Violation> {
     if b.capacity() < capn {
         return v(ctx, "with_capacity", format!("with_capacity({}).capacity() = {}", capn, b.capacity()), &workload, 0, &[]);
     }
+    if Arena::<Plain>::default() != Arena::new() || !(a.arena == Arena::default()) {
+        return v(ctx, "default-vs-new", "Arena::default() is not equal to Arena::new()".into(), &workload, 0, &[]);
+    }
     if !(b == a.arena) || !b.is_empty() || b.count() != 0 {
         return v(ctx, "with_capacity-observable", format!("with_capacity({}) is not equal to a new arena", capn), &workload, 0, &[]);
     }
@@ -165,6 +168,16 @@ pub fn run_c13(ctx: &Ctx, index: u64, cov: &mut Cov) -> Option<Violation> {
         foreign!(info.findings);
         if info.diverged {
             return None;
+        }
+        // `==` must tell apart what the calls made different (many other monitors lean on it)
+        if info.pre_model.state_fingerprint() != a.model.state_fingerprint() {
+            cov.bump("inequality_checks");
+            if !info.changed || a.arena == info.snapshot || info.snapshot == a.arena {
+                return v(ctx, "equality-too-coarse", format!("`{}` changed links/payload/liveness, yet the arena compares equal to the snapshot taken before the call", op.to_text()), &workload, step, &ops);
+            }
+        } else if !matches!(op, Op::Reserve(_)) && !info.refused && info.new_h.is_none() && info.changed {
+            // nothing the model knows changed (a no-op re-insert): equality must not be too fine either
+            return v(ctx, "equality-too-fine", format!("`{}` changed nothing observable, yet the arena differs from the snapshot", op.to_text()), &workload, step, &ops);
         }
         // (a) replay determinism in lock step, on an arena created differently
         let out_b = do_call(&mut b, &info.pre_model, &op, tid_of(&info));
